@@ -486,7 +486,7 @@ func knownFor(prop string) []knownFinding {
 			}
 		}
 		if p == prop && k.Class != "" {
-			k.What = rest
+			k.What = strings.TrimSpace(strings.Replace(rest, "property="+prop, "", 1))
 			out = append(out, k)
 		}
 	}
